@@ -60,6 +60,8 @@ theorem alogDestroy_built (h : Heap) :
   simp [alogDestroy, chanBuilt, deref, bind, Except.bind] at *
   exact this
 
+theorem alogDestroy_empty (h : Heap) : alogDestroy {} h = .ok ({}, h) := by simp [alogDestroy]
+
 /-! ## event loop -/
 
 /-- effective `hints_max_fd` -/
